@@ -874,3 +874,28 @@ V('C14-revert-D28-filter-autonamed', 'C14', CDB,
   """                cat if not cat.startswith(_autogen_category_prefix) else None,
 """, """                cat,
 """, 'M9', 'D28: filtered_context() on an extended database raises ValueError (reserved category name)')
+
+V('C07-revert-D29-legacy-dicts', 'C07', 'pylatexenc/latex2text/__init__.py',
+  """                macro_dict = flags.pop('macro_dict', default_macro_dict)
+                env_dict = flags.pop('env_dict', default_env_dict)
+""", """                macro_dict = flags.pop('macro_dict', [])
+                env_dict = flags.pop('env_dict', [])
+""", 'G14', 'D29: LatexNodes2Text(macro_dict=...) alone raises AttributeError (list default)')
+
+V('C16-revert-D30-spec-parse-args', 'C16', 'pylatexenc/macrospec/_specclasses.py',
+  """    return parsed, pos, parsed_len
+""", """    return parsed, parsed.pos, parsed.len
+""", 'R16p', 'D30: spec.parse_args() reads .pos/.len of ParsedArguments')
+
+V('C16-revert-D31-legacy-star-eos', 'C16', 'pylatexenc/macrospec/_pyltxenc2_argparsers/_base.py',
+  """                try:
+                    tok = w.get_token(p)
+                except LatexWalkerEndOfStream:
+                    # nothing follows: the star is simply absent
+                    argnlist.append(None)
+                    continue
+                if tok.tok == 'char' and tok.arg.startswith('*'):
+""", """                tok = w.get_token(p)
+                if tok.tok == 'char' and tok.arg.startswith('*'):
+""", 'R16q', 'D31: legacy star slot at end of input loses all arguments')
+
